@@ -499,10 +499,15 @@ def xstack_effect(opcode, opc, oparg: int = 0, jump=None):
                     return [-1, -2, -2, -3, -2, -3, -3, -4, -2, -3, -3, -4][oparg]
                 elif 0 <= oparg <= 2:
                     return [0, -1, -1][oparg]
-                else:
-                    return None
-            else:
-                return None
+            if version_tuple >= (3, 13):
+                # the operand-less 3.13 MAKE_FUNCTION replaces the code object by the function
+                return 0
+            if version_tuple >= (3, 6):
+                # one item popped per flag bit (defaults, kwdefaults, annotations, closure);
+                # before 3.11 the qualified name is popped as well
+                flags = bin(oparg & 0x0F).count("1")
+                return -flags if version_tuple >= (3, 11) else -1 - flags
+            return None
     elif opname == "CALL" and version_tuple >= (3, 12):
         return -oparg - 1
     elif opname == "CALL_KW":
